@@ -19,6 +19,9 @@ Definition guardians_for (s : ral_gstate) (idx : Z) : option bytes :=
   else if idx =? gs_prev_idx s then (if gs_now s <=? gs_prev_exp s then Some (gs_prev s) else None)
   else None.
 
+(* a guardian set as submitNewGuardianSet stores it: the size byte followed by the 20-byte keys *)
+Definition stored_set (K : list bytes) : bytes := be 1 (Z.of_nat (length K)) ++ concat K.
+
 Section Spec.
 Variable keccak : bytes -> bytes.
 (* the VM's ethEcRecover!(hash, r ++ s ++ v) with v = 27 / 28; None = the VM aborts *)
